@@ -353,6 +353,11 @@ func (p *provider) createAllSingletonsWithContext(ctx context.Context) error {
 			continue
 		}
 
+		// Group identities only order their members before their consumers
+		if _, isGroup := node.Provider.(*groupNode); isGroup {
+			continue
+		}
+
 		descriptor, ok := node.Provider.(*Descriptor)
 		if !ok {
 			return &ValidationError{
